@@ -35,14 +35,14 @@ type corsReq struct {
 }
 
 const (
-	hACAO  = "Access-Control-Allow-Origin"
-	hACAC  = "Access-Control-Allow-Credentials"
-	hACEH  = "Access-Control-Expose-Headers"
-	hACAM  = "Access-Control-Allow-Methods"
-	hACAH  = "Access-Control-Allow-Headers"
-	hACMA  = "Access-Control-Max-Age"
-	hACRM  = "Access-Control-Request-Method"
-	hACRH  = "Access-Control-Request-Headers"
+	hACAO = "Access-Control-Allow-Origin"
+	hACAC = "Access-Control-Allow-Credentials"
+	hACEH = "Access-Control-Expose-Headers"
+	hACAM = "Access-Control-Allow-Methods"
+	hACAH = "Access-Control-Allow-Headers"
+	hACMA = "Access-Control-Max-Age"
+	hACRM = "Access-Control-Request-Method"
+	hACRH = "Access-Control-Request-Headers"
 )
 
 var corsRouteAllow = []string{"GET", "HEAD", "OPTIONS", "POST"}
@@ -351,14 +351,14 @@ func init() {
 	rule := "the class product is enumerated completely: " + fmt.Sprint(n) + " configuration classes (origins none/any/one/several/any+others x allowed headers none/any/list x exposed x max-age 0/-1/n x credentials, minus the rejected '*'+credentials) x 2700 request classes (6 methods x 3 paths x 6 origin classes x 5 Access-Control-Request-Method classes x 5 Access-Control-Request-Headers classes incl. lower-case and spaced lists); first pass canonical strings, further passes random instantiations; " +
 		"non-trivial (distinct) = every (configuration class, request class, concrete strings) triple"
 	Register(&Engine{
-		ID: "C11", Cases: cases, Run: func(c *Ctx) { runCORS(c, "C11") }, Directed: corsDirected("C11"), Rule: rule, Exhaustive: true,
+		ID: "C11", Cases: cases, Anchors: []string{"options.go:cors.handle", "options.go:cors.headerIsAllowed", "options.go:cors.sanitize"}, Run: func(c *Ctx) { runCORS(c, "C11") }, Directed: corsDirected("C11"), Rule: rule, Exhaustive: true,
 		Floors: func(t string) map[string]int64 {
 			return map[string]int64{"config_class_enumerated": int64(n), "responses_with_ACAO": 20000, "responses_without_ACAO": 100000}
 		},
 		Assume: []string{"exhaustive refers to the class product, not to concrete header strings", "for a configuration listing '*' next to other origins either '*' or the echoed listed origin is accepted"},
 	})
 	Register(&Engine{
-		ID: "C12", Cases: cases, Run: func(c *Ctx) { runCORS(c, "C12") }, Directed: corsDirected("C12"), Rule: rule, Exhaustive: true,
+		ID: "C12", Cases: cases, Anchors: []string{"options.go:cors.handle", "options.go:cors.headerIsAllowed", "options.go:cors.sanitize"}, Run: func(c *Ctx) { runCORS(c, "C12") }, Directed: corsDirected("C12"), Rule: rule, Exhaustive: true,
 		Floors: func(t string) map[string]int64 {
 			return map[string]int64{"config_class_enumerated": int64(n), "responses_with_ACAO": 20000, "granted_preflights": 2000}
 		},
